@@ -86,7 +86,9 @@ def lanes(ctx):
         for fl in ("sec", "ded"):
             for i, d_ in enumerate(dec):
                 ds = [l for l in r.leaves if l.kind == "assign" and key(l.target) == "%s[%d]" % (fl, i)]
-                if len(ds) != 1 or key(ds[0].value) != "%s.%s" % (d_, fl) or "source.valid" not in r.guard_keys(ds[0], False):
+                # `If(valid, x.eq(f))` and `x.eq(f & valid)` are the same thing
+                ck_ = (r.guard_keys(ds[0], False) | litset(conj(ds[0].value))) if len(ds) == 1 else set()
+                if len(ds) != 1 or ck_ != {"%s.%s" % (d_, fl), "source.valid"}:
                     ob.refute("flag:%s[%d]:%s" % (fl, i, tag), "%s: %s[%d] is not decoder %d's %s flag under source.valid: %s" % (tag, fl, i, i, fl, [str(x) for x in ds]), None)
 
 
@@ -122,7 +124,8 @@ def counters(ctx):
                 ob.refute("%s-step" % kind, "%s counter is updated to %s, expected +1" % (kind, key(l.value)), l.loc)
         if len(clrs) != 2 or any(v.guard_keys(c, False) != {clear} for c in clrs):
             ob.refute("%s-clear" % kind, "%s counter / flag are not both reset under clear alone: %s" % (kind, [str(c) for c in clrs]), None)
-    en = v.drivers("ecc_rdata.enable")
+    rd_ = [o for o in v.d.instances.values() if o.cls == "LiteDRAMNativePortECCR" and "." not in o.path]
+    en = v.drivers(rd_[0].path + ".enable") if rd_ else []
     if not en or key(en[0].value) != "enable.storage":
         ob.refute("enable", "decoder enable is not driven by the enable CSR", None)
 
@@ -153,14 +156,15 @@ def masks(ctx):
                         ob.instance("%s assign source.we[%d:%d]" % (tag, sb[1], sb[2]), {"width": W, "constant": c, "ok": okc})
                     if not okc:
                         bad_asg.append(("%s: source.we[%d:%d] (%d bits) is assigned %d" % (tag, sb[1], sb[2], W, c), l.loc))
-            # comparisons in guards
-            for c_, p in l.guards:
+            # comparisons of a byte-enable slice with a non-zero constant, wherever they are written (guard or value) on the way to we_error
+            if l.target is None or key(l.target) != "we_error":
+                continue
+            for c_ in [c0 for c0, p in l.guards] + ([l.value] if l.value is not None else []):
                 for t in subterms(c_):
                     if isinstance(t, Op) and t.op in ("==", "!=") and len(t.args) == 2:
                         for a, b in ((t.args[0], t.args[1]), (t.args[1], t.args[0])):
                             sb = slice_bounds(a)
-                            if sb and sb[0] == "sink.we" and isinstance(b, Const) and isinstance(b.v, int) and b.v != 0 and is1(l.value) \
-                                    and key(l.target) == "we_error":
+                            if sb and sb[0] == "sink.we" and isinstance(b, Const) and isinstance(b.v, int) and b.v != 0:
                                 n_cmp += 1
                                 W = width_of_slice(sb)
                                 okc = b.v == (1 << W) - 1
@@ -172,7 +176,7 @@ def masks(ctx):
         if n_cmp == 0 or n_assign == 0:
             ob.unknown("%s: byte-enable assignment / we_error comparison not found (%d/%d)" % (tag, n_assign, n_cmp))
         for l in w.drivers("we_error"):
-            if "sink.valid" not in w.guard_keys(l, False):
+            if "sink.valid" not in (w.guard_keys(l, False) | (litset(conj(l.value)) if not is1(l.value) else set())) and not is0(l.value):
                 ob.refute("we_error-valid", "we_error can be raised without sink.valid", l.loc)
     if bad_cmp:
         ob.refute("we_error-compare-constant", "the granularity check compares a byte-enable slice with a constant that is not the all-ones value of "
